@@ -163,6 +163,16 @@ func init() {
 	sc := Scenario{Prop: "C06", Weights: map[string]int{"send": 5, "call": 14, "pour": 4, "data": 1, "replay": 1, "block": 6, "clock": 2}, Lo: 20, Hi: 100, Mixed: true, Bubble: true}
 	sc.Setup = func(w *World, r *Runner) []Observer {
 		r.SaveAll = true
+		// A verifier sees the whole block when it executes payFees (the contract sums the fees of
+		// b.Txns), the assembler only the transactions so far: as an honest generator does, the fee
+		// payment is therefore placed after all other transactions of the block.
+		for _, op := range []string{"st.payfees"} {
+			if orig, ok := r.Ops[op]; ok {
+				r.Ops[op] = func(r *Runner, st sim.Step) {
+					r.Deferred = append(r.Deferred, func() { orig(r, st) })
+				}
+			}
+		}
 		return []Observer{NewOracleC06(w, r.Plan)}
 	}
 	gen := func(seed uint64, tier string) *sim.Plan {
@@ -175,7 +185,7 @@ func init() {
 	}
 	sim.Register(&sim.Check{
 		ID: "C06", Title: "Block execution is deterministic", World: "ledger",
-		Gen: gen, Exec: sc.Exec,
+		Gen: gen, Exec: sc.Exec, NondeterminismIsTheProperty: true,
 		Quick: sim.Budget{Runs: 160, WallS: 100}, Thorough: sim.Budget{Runs: 6000, WallS: 1500},
 		LevelText: "every assembled block is re-executed from its wire form through the shipped Block.ComputeState on 2-3 replica chains (own node DB, own cache) that differ in one source of nondeterminism at a time: empty vs warm state cache, a later wall clock (fake clock of a synctest bubble: +1 s, +1 h, +400 d), restart from the simulated disk in between; state root, change count, statuses, outputs, output hashes and the ordered event list must agree with the generator's execution",
 		LevelNote: "map iteration order differs between any two executions for free; goroutine scheduling of the inner GetItemsByIDs workers is covered by running the same seeds at GOMAXPROCS 1/4/16 (./run.sh selftest C06: identical event-log hashes, which include roots, statuses and outputs); node-local chain facts (older LFB/LFMB on a replica) are not varied; user-balance events are not emitted because no event DB is attached in this world",
